@@ -340,6 +340,104 @@ func runC06(r *core.Run) {
 			return core.Outcome{Class: "same", Nontrivial: true, Evals: 2}
 		})
 
+	type lineLen struct {
+		Format  string `json:"format"`
+		Variant int    `json:"variant"`
+		Len     int    `json:"line_content_len"`
+	}
+	// lineOfLen: a well-formed LF file one of whose lines has exactly n content bytes
+	lineOfLen := func(format string, variant, n int) (string, bool) {
+		pad := func(k int) string {
+			if k < 0 {
+				return ""
+			}
+			return string(longSeq(k))
+		}
+		switch format + fmt.Sprint(variant) {
+		case "fasta0":
+			return ">a\nAC\n>" + pad(n-1) + "\nGG\n>b\nT\n", n >= 1
+		case "fasta1":
+			return ">a\nAC\n>long\n" + pad(n) + "\nGG\n>b\nT\n", true
+		case "fastq0":
+			return "@a\nA\n+\nI\n@long\n" + pad(n) + "\n+\n" + strings.Repeat("I", n) + "\n@b\nC\n+\nI\n", true
+		case "fastq1":
+			return "@a\nA\n+\nI\n@" + pad(n-1) + "\nAC\n+\nII\n@b\nC\n+\nI\n", n >= 1
+		case "fastq2":
+			return "@a\nA\n+\nI\n@l\nAC\n+" + pad(n-1) + "\nII\n@b\nC\n+\nI\n", n >= 1
+		case "sam0", "samh0": // line ends in a Z tag
+			base := "long\t0\tr\t1\t9\t1M\t*\t0\t0\tA\tI\tXZ:Z:"
+			return "@HD\tVN:1.6\nq0\t0\tr\t1\t9\t1M\t*\t0\t0\tA\tI\n" + base + pad(n-len(base)) + "\nq2\t0\tr\t1\t9\t1M\t*\t0\t0\tA\tI\n", n >= len(base)
+		case "sam1", "samh1": // line ends in an integer tag
+			base := "long\t0\tr\t1\t9\t1M\t*\t0\t0\tA\tI\tXZ:Z:"
+			tail := "\tNM:i:5"
+			return "@HD\tVN:1.6\n" + base + pad(n-len(base)-len(tail)) + tail + "\nq2\t0\tr\t1\t9\t1M\t*\t0\t0\tA\tI\n", n >= len(base)+len(tail)
+		case "sam2", "samh2": // line ends in Qual
+			base := "long\t0\tr\t1\t9\t*\t*\t0\t0\t"
+			k := n - len(base) - 1
+			if k < 0 || k%2 != 0 {
+				return "", false
+			}
+			return "q0\t0\tr\t1\t9\t1M\t*\t0\t0\tA\tI\n" + base + pad(k/2) + "\t" + strings.Repeat("J", k/2) + "\nq2\t0\tr\t1\t9\t1M\t*\t0\t0\tA\tI\n", true
+		case "samh3": // a header line
+			return "@CO\t" + pad(n-4) + "\nq2\t0\tr\t1\t9\t1M\t*\t0\t0\tA\tI\n", n >= 4
+		case "bed0":
+			return "a\t0\t1\tn\nc\t0\t1\t" + pad(n-6) + "\nb\t2\t3\tm\n", n >= 6
+		case "bed1": // line ends in an integer field
+			return "a\t0\t1\tn\t5\n" + pad(n-8) + "\t0\t1\tn\t7\nb\t2\t3\tm\t0\n", n >= 8
+		case "newick0":
+			return "(a,b);\n(" + pad(n-5) + ",c);\n(d);\n", n >= 5
+		case "newick1": // line ends in a distance
+			return "(a,b);\n(" + pad(n-9) + ",c):1.5;\n(d);\n", n >= 9
+		}
+		return "", false
+	}
+	r.Bound("crlf-line-lengths", fmt.Sprintf("per format 2..4 line kinds (name / sequence / plus / quality line, SAM line ending in a Z tag, an integer tag, Qual, a header line, BED ending in text / an integer, Newick ending in a name / a distance) x every line length 4080..4110, 8180..8200%s: the LF and the CRLF form decode to the same records, without error", core.Pick(r, "", ", 65520..65550")))
+	core.Clause(r, "crlf-line-lengths", core.Opts{Rule: "CRLF at every position relative to the reader's internal buffers: for every line length around the buffer sizes the CR must be stripped (it must not end up in the last field, nor make an integer field unparsable); non-trivial = all"},
+		func(emit func(lineLen) bool) {
+			var ls []int
+			for l := 4080; l <= 4110; l++ {
+				ls = append(ls, l)
+			}
+			for l := 8180; l <= 8200; l++ {
+				ls = append(ls, l)
+			}
+			if r.Thorough() {
+				for l := 65520; l <= 65550; l++ {
+					ls = append(ls, l)
+				}
+			}
+			for _, f := range formats {
+				for v := 0; v < 4; v++ {
+					for _, l := range ls {
+						if _, ok := lineOfLen(f.Name, v, l); ok {
+							if !emit(lineLen{f.Name, v, l}) {
+								return
+							}
+						}
+					}
+				}
+			}
+		},
+		func(c lineLen) core.Outcome {
+			f := formatByName(c.Format)
+			lf, _ := lineOfLen(c.Format, c.Variant, c.Len)
+			crlf := strings.ReplaceAll(lf, "\n", "\r\n")
+			a, pa := refRead(f, []byte(lf))
+			b, pb := refRead(f, []byte(crlf))
+			if pa != "" || pb != "" {
+				return core.Failf("%s: panic while decoding: %s %s", c.Format, pa, pb)
+			}
+			for _, it := range a {
+				if it.IsErr() {
+					return core.Failf("HARNESS: %s variant %d length %d is not well-formed with LF: %s", c.Format, c.Variant, c.Len, it.Err)
+				}
+			}
+			if !sameShape(a, b) {
+				return core.Failf("%s (line kind %d, line content of %d bytes): with LF it decodes to %s, with CRLF to %s", c.Format, c.Variant, c.Len, trunc(renderObs(a), 200), trunc(renderObs(b), 300))
+			}
+			return core.Outcome{Class: fmt.Sprint(c.Format, c.Variant), Nontrivial: true, Evals: 2}
+		})
+
 	scratch := filepath.Join(r.Root, ".scratch", fmt.Sprintf("c06-%d", os.Getpid()))
 	os.MkdirAll(scratch, 0o755)
 	defer os.RemoveAll(scratch)
